@@ -21,9 +21,10 @@ type c08Case struct {
 
 func genC08(t *rapid.T) c08Case {
 	c := c08Case{Cfg: genLimitCfg(t, []string{"vegas", "gradient", "gradient2"}, false)}
-	if c.Cfg.Initial > c.Cfg.Max {
-		// A state above the ceiling is outside the algorithms' operating range: the clamp to the
-		// maximum is then a decrease that only the "grow" branch applies. Domain decision (DESIGN 6).
+	if c.Cfg.Algo == "vegas" && c.Cfg.Initial > c.Cfg.Max {
+		// Vegas only: with the estimate above the ceiling its "no change" branch keeps the estimate
+		// while the "grow" branch clamps it down to the maximum. Domain decision (DESIGN 6). Gradient
+		// and Gradient2 cap every path, so they are checked above the ceiling as well.
 		c.Cfg.Initial = c.Cfg.Max
 	}
 	if c.Cfg.Algo == "gradient2" && c.Cfg.LongWindow < 1 {
